@@ -1,5 +1,6 @@
 import Ledger.Proofs.SchedUnique
 import Ledger.Proofs.SchedHandles
+import Ledger.Proofs.SchedWitnesses
 
 /-!
 # C16 (schedule part) — ids unique; commit order vs. id order
@@ -46,13 +47,7 @@ theorem ledgers_independent (w w' : World) (s : Sid) (l ref : Nat) (o : Out)
 
 /-! ## counterexamples: two writers on disjoint accounts -/
 
-def cxA (sync : Bool) : Send := { l := 1, sync := sync, src := 1, dst := 2, amt := 1, allow := .unbounded }
-def cxB (sync : Bool) : Send := { l := 1, sync := sync, src := 3, dst := 4, amt := 1, allow := .unbounded }
-def cxWorld (sync : Bool) : World :=
-  { sess := fun s => if s = 1 then { prog := sendProg (cxA sync) true } else if s = 2 then { prog := sendProg (cxB sync) true } else {} }
 
-/-- A: BEGIN, UpdateVolumes, InsertTransaction (id 1) · B: the whole request (id 2), COMMIT · A: the rest -/
-def cxTxSchedule : Schedule := [1, 1, 1, 2, 2, 2, 2, 2, 2, 1, 1, 1]
 
 /-- Even with HASH_LOGS=SYNC the earlier commit (B) holds the larger transaction id. -/
 theorem tx_ids_commit_order_counterexample :
@@ -61,8 +56,6 @@ theorem tx_ids_commit_order_counterexample :
     (run cxTxSchedule (cxWorld true)).resp 1 = some { tx := 1, log := 2 } := by
   decide
 
-/-- A: BEGIN, UpdateVolumes, InsertTransaction, InsertLog (log id 1) · B: the whole request (log id 2), COMMIT · A: COMMIT -/
-def cxLogSchedule : Schedule := [1, 1, 1, 1, 2, 2, 2, 2, 2, 1]
 
 /-- Without the advisory lock (HASH_LOGS ≠ SYNC) log ids are not in commit order either. -/
 theorem log_ids_commit_order_async_counterexample :
